@@ -60,21 +60,31 @@ func quoteFields(v string) string {
 // DepTypeText writes a dep.Type in the space-separated key/value syntax the
 // schema's parsers read ("opt scope peer knownas \"a b\"").
 func DepTypeText(kvs []KV) string {
-	var parts []string
+	var items []string
 	for _, kv := range kvs {
 		k := dep.AttrKey(kv.K)
-		parts = append(parts, strings.ToLower(k.String()))
-		if depFlag[k] {
-			continue
+		item := strings.ToLower(k.String())
+		if !depFlag[k] {
+			if needsQuote(kv.V) {
+				item += " " + quoteFields(kv.V)
+			} else {
+				item += " " + kv.V
+			}
 		}
-		if needsQuote(kv.V) {
-			parts = append(parts, quoteFields(kv.V))
-		} else {
-			parts = append(parts, kv.V)
-		}
+		items = append(items, item)
 	}
-	return strings.Join(parts, " ")
+	// The items of a type may be written in any order; DepTypeRotate picks
+	// one (a flag before, between or after the valued attributes).
+	if n := len(items); n > 1 && DepTypeRotate > 0 {
+		r := DepTypeRotate % n
+		items = append(append([]string(nil), items[r:]...), items[:r]...)
+	}
+	return strings.Join(items, " ")
 }
+
+// DepTypeRotate rotates the order in which DepTypeText writes the flags and
+// attributes of a type (0: flags first, then keys in key order).
+var DepTypeRotate int
 
 // SchemaText renders the spec in the schema grammar: flag attributes of a
 // version go in the "flags|version" prefix, valued attributes on ATTR: lines.
